@@ -9,7 +9,9 @@
 (***************************************************************************)
 EXTENDS SaveLoad, TraceLib
 
-VARIABLES l, bad, st, dead, out      \* out: the reference sequence of this segment (labelled graphs as edge-rank lists)
+BlobSet == 1..2500
+VARIABLES l, bad, st, dead, refl      \* refl: the line of this segment's Ref event (0 before); the reference sequence stays in the trace, not in the state
+out == IF refl = 0 THEN <<>> ELSE Trace[refl].out
 Ev == Trace[l]
 S == [it |-> it, blob |-> blob]
 
@@ -27,7 +29,19 @@ JudgeDrain(e) ==
     ELSE IF e.vals # SubSeq(out, it[e.i].pos + 1, Len(out)) THEN "the remaining output differs from what the uninterrupted iterator still produces"
     ELSE ""
 
-TInit == l = 1 /\ bad = <<>> /\ dead = FALSE /\ out = <<>>
+(* Adv = t calls of Next of which only the number of successes and the last value are logged; Take = t calls, all values logged *)
+JudgeAdv(e) ==
+    LET p == it[e.i].pos  want == IF p + e.t <= Len(out) THEN e.t ELSE Len(out) - p IN
+    IF ~it[e.i].live THEN "HARNESS: Adv on an iterator that does not exist"
+    ELSE IF e.res # "ok" THEN e.res
+    ELSE IF e.oks # want THEN "advancing delivered a different number of graphs than the uninterrupted iterator"
+    ELSE IF want > 0 /\ e.last # out[p + want] THEN "after advancing, the current graph differs from the uninterrupted iterator's at this position"
+    ELSE IF e.ev = "Take" /\ e.vals # SubSeq(out, p + 1, p + want) THEN "the graphs delivered after loading differ from the uninterrupted iterator's"
+    ELSE ""
+AdvEff(e) == LET p == it[e.i].pos  np == IF p + e.t <= Len(out) THEN p + e.t ELSE Len(out) IN
+             [it EXCEPT ![e.i] = [live |-> TRUE, pos |-> np, exh |-> (p + e.t > Len(out))]]
+
+TInit == l = 1 /\ bad = <<>> /\ dead = FALSE /\ refl = 0
          /\ it = [i \in Iters |-> Dead] /\ blob = [b \in Blobs |-> NoBlob] /\ act = Act("Init", 0, 0) /\ res = [ok |-> TRUE, idx |-> 0]
          /\ st = [segs |-> 0, nexts |-> 0, saves |-> 0, loads |-> 0, drains |-> 0, inner |-> 0, graphs |-> 0]
 Flag(why) == /\ bad' = IF why = "" THEN bad ELSE Note(bad, [seg |-> Ev.seg, l |-> l, why |-> why \o " [" \o Ev.ev \o "]"])
@@ -36,26 +50,30 @@ Apply(a) == LET s2 == Eff(S, a, Len(out)) IN it' = s2.it /\ blob' = s2.blob
 TStep ==
     /\ l <= NEvents /\ l' = l + 1 /\ UNCHANGED <<act, res>>
     /\ IF Ev.ev = "Reset"
-       THEN /\ bad' = bad /\ dead' = FALSE /\ out' = <<>> /\ it' = [i \in Iters |-> Dead] /\ blob' = [b \in Blobs |-> NoBlob]
+       THEN /\ bad' = bad /\ dead' = FALSE /\ refl' = 0 /\ it' = [i \in Iters |-> Dead] /\ blob' = [b \in Blobs |-> NoBlob]
             /\ st' = [st EXCEPT !.segs = @ + 1]
-       ELSE IF dead THEN UNCHANGED <<bad, dead, out, it, blob, st>>
+       ELSE IF dead THEN UNCHANGED <<bad, dead, refl, it, blob, st>>
        ELSE IF Ev.ev = "Ref"
-       THEN /\ out' = Ev.out /\ Flag(IF Ev.res = "ok" THEN "" ELSE Ev.res) /\ UNCHANGED blob
+       THEN /\ refl' = l /\ Flag(IF Ev.res = "ok" THEN "" ELSE Ev.res) /\ UNCHANGED blob
             /\ it' = [i \in Iters |-> IF i = 1 THEN Fresh ELSE Dead]        \* iterator 1 is a fresh iterator of the same configuration
             /\ st' = [st EXCEPT !.graphs = @ + Len(Ev.out)]
+       ELSE IF Ev.ev \in {"Adv", "Take"}
+       THEN /\ Flag(JudgeAdv(Ev)) /\ UNCHANGED <<refl, blob>>
+            /\ it' = IF it[Ev.i].live THEN AdvEff(Ev) ELSE it
+            /\ st' = [st EXCEPT !.nexts = @ + Ev.t]
        ELSE IF Ev.ev = "Next"
-       THEN /\ Flag(JudgeNext(Ev)) /\ UNCHANGED out
+       THEN /\ Flag(JudgeNext(Ev)) /\ UNCHANGED refl
             /\ (IF it[Ev.i].live THEN Apply(Act("Next", Ev.i, 0)) ELSE UNCHANGED <<it, blob>>)
             /\ st' = [st EXCEPT !.nexts = @ + 1]
        ELSE IF Ev.ev = "Save"
-       THEN /\ Flag(IF ~it[Ev.i].live THEN "HARNESS: Save on an iterator that does not exist" ELSE IF Ev.res # "ok" THEN Ev.res ELSE "") /\ UNCHANGED out
+       THEN /\ Flag(IF ~it[Ev.i].live THEN "HARNESS: Save on an iterator that does not exist" ELSE IF Ev.res # "ok" THEN Ev.res ELSE "") /\ UNCHANGED refl
             /\ (IF it[Ev.i].live THEN Apply(Act("Save", Ev.i, Ev.b)) ELSE UNCHANGED <<it, blob>>)
             /\ st' = [st EXCEPT !.saves = @ + 1, !.inner = @ + (IF it[Ev.i].live /\ it[Ev.i].pos > 0 /\ it[Ev.i].pos < Len(out) THEN 1 ELSE 0)]
        ELSE IF Ev.ev = "Load"
-       THEN /\ Flag(IF ~blob[Ev.b].full THEN "HARNESS: Load of an empty blob" ELSE IF Ev.res # "ok" THEN Ev.res ELSE "") /\ UNCHANGED out
+       THEN /\ Flag(IF ~blob[Ev.b].full THEN "HARNESS: Load of an empty blob" ELSE IF Ev.res # "ok" THEN Ev.res ELSE "") /\ UNCHANGED refl
             /\ (IF blob[Ev.b].full THEN Apply(Act("Load", Ev.i, Ev.b)) ELSE UNCHANGED <<it, blob>>)
             /\ st' = [st EXCEPT !.loads = @ + 1]
-       ELSE /\ Flag(JudgeDrain(Ev)) /\ UNCHANGED <<out, blob>>
+       ELSE /\ Flag(JudgeDrain(Ev)) /\ UNCHANGED <<refl, blob>>
             /\ it' = IF it[Ev.i].live THEN [it EXCEPT ![Ev.i] = [live |-> TRUE, pos |-> Len(out), exh |-> TRUE]] ELSE it
             /\ st' = [st EXCEPT !.drains = @ + 1]
 Report == ReportLine(l, [bad |-> bad, st |-> st, events |-> NEvents])
